@@ -254,8 +254,9 @@ def thrOps : EngineOps ThrEngine Int Int Nat where
   process e x := some ({ e with processed := e.processed + 1 }, if x > e.thr then [x] else [])
   checkpoint e := e.processed
   restore e ck := some { e with processed := ck }
-  -- `Engine::reload` keeps the compiled stream when source type and operation count are unchanged
-  -- ("state preserved"): with the tie's programs the old threshold stays in force (C23's subject)
-  reload e s := s.toInt?.map fun _ => e
+  -- `Engine::reload` (since the repairs d12ab68 / 0e9b4cf in /repo: declarations are compared
+  -- structurally) applies an edited predicate although the stream's shape is unchanged; the engine's
+  -- event counter is kept
+  reload e s := s.toInt?.map fun t => { e with thr := t }
 
 end Varpulis.TenantApi
